@@ -58,6 +58,8 @@ type StepOut struct {
 	User         string
 	Code         int
 	Raw235       string
+	// Hangup: the server drops the connection instead of answering.
+	Hangup bool
 }
 
 // SASLServer is one mechanism instance for one exchange.
